@@ -220,8 +220,22 @@ type blockRec struct {
 	forged    bool
 	periodEnd bool
 	endLogs   int
+	slashLogs int // logs with the slashing topic in the end-block receipt
+	slashTot  map[common.Address]*big.Int // penalty total per validator as logged (SlashDataV5.Total)
 	reruns    int
 	skipped   string // block not built (ill-formed proposer)
+
+	poolBefore, poolAfter []staking.Evidence // the builder's evidence pool when EndBlock started / after it
+	sameKind              bool               // an evidence of kind "same" is in the pool (F-C05a territory, excluded from the model comparison)
+}
+
+// evInfo is what the harness knows about an evidence it made (keyed by the keccak of its data).
+type evInfo struct {
+	id    int
+	round uint64
+	vk    int
+	kind  string
+	valid bool
 }
 
 type violation struct {
@@ -250,9 +264,10 @@ func splitBlocks(lines []string) [][]string {
 }
 
 type session struct {
-	w  *world
-	rr *runResult
-	k  int // re-executions per block
+	w   *world
+	rr  *runResult
+	k   int // re-executions per block
+	evs map[common.Hash]evInfo
 }
 
 func newSession(header []string, k int) (*session, []string, error) {
@@ -263,7 +278,7 @@ func newSession(header []string, k int) (*session, []string, error) {
 	if err := w.start(); err != nil {
 		return nil, nil, err
 	}
-	return &session{w: w, rr: &runResult{w: w}, k: k}, rest, nil
+	return &session{w: w, rr: &runResult{w: w}, k: k, evs: map[common.Hash]evInfo{}}, rest, nil
 }
 
 func (s *session) close() { s.w.stop() }
@@ -346,9 +361,13 @@ func (s *session) runBlock(bl []string) error {
 			if round < 0 {
 				round = 0
 			}
-			ev, err := w.makeEvidence(w.kit.A, vk, uint64(round), o.f[2])
+			ev, valid, err := w.makeEvidence(w.kit.A, vk, uint64(round), o.f[2])
 			if err != nil {
 				return err
+			}
+			hk := crypto.Keccak256Hash(ev.Data)
+			if _, dup := s.evs[hk]; !dup {
+				s.evs[hk] = evInfo{id: len(s.evs) + 1, round: uint64(round), vk: vk, kind: o.f[2], valid: valid}
 			}
 			evs = append(evs, ev)
 			br.nEv++
@@ -394,10 +413,17 @@ func (s *session) runBlock(bl []string) error {
 			w.kit.A.Staking.VerifC06AddEvidence(e)
 		}
 	}
+	br.poolBefore = w.kit.A.Staking.VerifC06Evidences()
+	for _, e := range br.poolBefore {
+		if s.evs[crypto.Keccak256Hash(e.Data)].kind == "same" {
+			br.sameKind = true
+		}
+	}
 	built, err := work.Finish(slashData)
 	if err != nil {
 		return err
 	}
+	br.poolAfter = w.kit.A.Staking.VerifC06Evidences()
 	if built.Panic != "" {
 		rr.stopErr = fmt.Sprintf("block %d: EndBlock panicked in the builder: %s", br.num, built.Panic)
 		rr.blocks = append(rr.blocks, br)
@@ -409,6 +435,18 @@ func (s *session) runBlock(bl []string) error {
 	br.periodEnd = (br.num+1)%w.yp.StakingTrieFrequency == 0
 	if built.EndReceipt != nil {
 		br.endLogs = len(built.EndReceipt.Logs)
+		for _, l := range built.EndReceipt.Logs {
+			if len(l.Topics) == 1 && l.Topics[0] == common.StringToHash(staking.LogTopicSlashing) {
+				br.slashLogs++
+				var sd staking.SlashDataV5
+				if rlp.DecodeBytes(l.Data, &sd) == nil && sd.Total != nil {
+					if br.slashTot == nil {
+						br.slashTot = map[common.Address]*big.Int{}
+					}
+					br.slashTot[sd.MainAddress] = sd.Total
+				}
+			}
+		}
 	}
 	if len(h.SlashData) > 0 && !forged {
 		var conf []staking.Evidence
